@@ -120,6 +120,50 @@ Proof.
 Qed.
 Print Assumptions C10_on_fragment.
 
+(* no reference is lost at statement level either: the reference tokens of a SELECT / UPDATE / DELETE are exactly the
+   field leaves of its own clause items (select list, ON, WHERE, GROUP BY, HAVING, ORDER BY, SET target / value), resolved
+   to the sources' in-statement references, clause by clause and in order; a GROUP BY / ORDER BY item printed as a
+   select alias contributes none *)
+Theorem C10_no_reference_lost : forall kin walias subquery ali x ts,
+  is_sud x = true -> stoks kin walias subquery ali x = Ok ts -> stok_tables ts = expected_refs kin x.
+Proof. exact stoks_complete. Qed.
+Print Assumptions C10_no_reference_lost.
+
+(* the two readings of the rule at statement level, for a reference token of ANY clause of ANY statement *)
+Theorem C10_aliased_source_always_qualified : forall kin walias subquery ali x ts cl tb qual n st,
+  stoks kin walias subquery ali x = Ok ts -> In (cl, KRef (Some tb) qual n st) ts ->
+  truthy_ostr (talias tb) = true -> qual = Some (ostr (talias tb)).
+Proof.
+  intros kin walias subquery ali x ts cl tb qual n st H Hin Ha.
+  pose proof (stoks_rule _ _ _ _ _ _ H) as F. rewrite Forall_forall in F. specialize (F _ Hin).
+  unfold sref_ok in F. cbn [fst snd ref_ok qualifier] in F. rewrite Ha, orb_true_r in F.
+  rewrite F, table_name_alias; auto.
+Qed.
+Print Assumptions C10_aliased_source_always_qualified.
+Theorem C10_multi_source_qualified : forall kin walias subquery ali x ts cl tb qual n st,
+  stoks kin walias subquery ali x = Ok ts -> In (cl, KRef (Some tb) qual n st) ts ->
+  1 < scope_size x -> is_target cl = false -> qual = Some (table_name tb).
+Proof.
+  intros kin walias subquery ali x ts cl tb qual n st H Hin Hs Ht.
+  pose proof (stoks_rule _ _ _ _ _ _ H) as F. rewrite Forall_forall in F. specialize (F _ Hin).
+  unfold sref_ok in F. cbn [fst snd ref_ok qualifier] in F. rewrite Ht, (scope_gt1_wns _ Hs) in F. exact F.
+Qed.
+Print Assumptions C10_multi_source_qualified.
+(* the table reference a field bound to the i-th source resolves to carries the source's in-statement name:
+   the effective alias (given, sq<d> or name2) when there is one, else the table's own alias-or-name *)
+Theorem C10_in_statement_name :
+  (forall t, table_name (src_ref (SrcT t) None) = table_name t)
+  /\ (forall t a, truthy_ostr (Some a) = true -> table_name (src_ref (SrcT t) (Some a)) = a)
+  /\ (forall y a, truthy_ostr (Some a) = true -> table_name (src_ref (SrcQ y) (Some a)) = a)
+  /\ (forall srcs t i, is_src_ref t = Some i -> resolve_tref srcs t = nth i srcs t).
+Proof.
+  split; [intros [n ch a]; reflexivity|].
+  split; [intros t a H; unfold table_name, src_ref; cbn [talias]; rewrite H; reflexivity|].
+  split; [intros y a H; unfold table_name, src_ref; cbn [talias]; rewrite H; reflexivity|].
+  intros srcs t i H. unfold resolve_tref. rewrite H. reflexivity.
+Qed.
+Print Assumptions C10_in_statement_name.
+
 (* expression level (all terms, any depth): text = tokens; no leaf lost; the rule; its three readings *)
 Theorem C10_terms :
   (forall c t, render c t = rmap (flat (q c)) (rtoks c t))
